@@ -23,7 +23,11 @@ RULE = ('history = 2-14 generated operations, mostly update_one / update_many / 
         '$addToSet with $each, $pull, $pullAll, $pop, $rename, $currentDate, $setOnInsert) on '
         'dotted paths aimed at existing fields, arrays and beyond their end, chained so that each '
         'update works on the result of the previous ones, half of the histories on emulated '
-        'server 4.4; the witnesses of the repaired defects are replayed first; every step is compared with the Lean model (outcome, full documents) and, '
+        'server 4.4; 3% of the operators are malformed (unknown $operator in any position, also behind '
+        'valid ones and with filters matching nothing; a clause next to $each in $addToSet; bad '
+        'arguments); the witnesses of the repaired defects are replayed first; every step is '
+        'compared with the Lean model (outcome, full documents): an accepted unknown operator or '
+        '$addToSet clause is reported directly; and, '
         'where the independent reference semantics commits to an answer, with the reference; '
         '8% of the updates use the positional operator (filter with $elemMatch, path f.$.x; outside '
         'the Lean model, judged on python only): every update_many over >= 2 matches is compared '
@@ -141,6 +145,19 @@ def oracle(history, steps):
             break
         k = st.op[0]
         pre = (st.extra or {}).get('pre')
+        if k in ('update_one', 'update_many') and st.out[0] == 'val' and isinstance(st.op[2], dict):
+            # what must be refused: an unknown $operator (whether or not anything matches), and
+            # a clause next to $each in $addToSet once the update is applied to a document
+            unknown = refupdate.unknown_operators(st.op[2])
+            if unknown:
+                fails.append((i, 'unknown-operator-accepted', '%s %r %r was accepted (%r): %r is '
+                              'no update operator' % (k, st.op[1], st.op[2], st.out[1], unknown[0])))
+            clause = refupdate.addtoset_clause(st.op[2])
+            applied = (pre and 'error' not in pre and pre.get('matched')) or len(docs) > len(prev)
+            if clause and applied and not unknown:
+                fails.append((i, 'addtoset-clause-accepted', '%s %r %r was applied to a document '
+                              'although $addToSet.%s carries %r next to $each'
+                              % (k, st.op[1], st.op[2], clause[0], clause[1])))
         if k in ('update_one', 'update_many', 'replace_one') and st.out[0] == 'val' and pre and \
                 'error' not in pre and pre['size'] == len(prev) and all(j >= 0 for j in pre['matched']):
             out = st.out[1]
